@@ -1,7 +1,8 @@
 //! C02: borrowed views alias the array's storage; reinterpretation needs exact length;
 //! by-value conversions keep positions.  Encodings: see coq/theories/CorrC02.v.
 //!
-//! case = kind, ety, sz, N, rest...   (ety 0 u32, 1 Tr, 2 Tz, 3 (); sz = size_of::<T>())
+//! case = kind, ety, sz, N, rest...   (ety 0 u32, 1 Tr, 2 Tz, 3 (), 4 Tri: 12 bytes with alignment 4, so that
+//! an array of them rarely starts at a multiple of its element SIZE; sz = size_of::<T>())
 //! kind 0 views [o] | 1 write-through [o, A, B, i, v] | 2 reinterpretation [o, L, form, wi, wv]
 //! | 3 by value [dir, base]
 use generic_array::sequence::GenericSequence;
@@ -48,6 +49,27 @@ impl Elem for Tz {
         0
     }
     fn set(&mut self, _: i64) {}
+}
+/// a composite element whose size (12) is larger than its alignment (4)
+#[derive(Clone, Copy)]
+struct Tri {
+    a: u32,
+    b: u32,
+    c: u32,
+}
+impl Elem for Tri {
+    fn mk(id: i64) -> Tri {
+        Tri { a: id as u32, b: !(id as u32), c: 0xC0FFEE }
+    }
+    fn id(&self) -> i64 {
+        if self.b != !self.a || self.c != 0xC0FFEE {
+            return -1;
+        }
+        self.a as i64
+    }
+    fn set(&mut self, id: i64) {
+        *self = Tri::mk(id)
+    }
 }
 impl Elem for () {
     fn mk(_: i64) {}
@@ -452,6 +474,7 @@ macro_rules! with_len {
                     0 => $f::<u32, $u, $k>($case),
                     1 => $f::<Tr, $u, $k>($case),
                     2 => $f::<Tz, $u, $k>($case),
+                    4 => $f::<Tri, $u, $k>($case),
                     _ => $f::<(), $u, $k>($case),
                 });
             }
@@ -467,6 +490,7 @@ fn size_of_ety(ety: i128) -> i128 {
         0 => size_of::<u32>(),
         1 => size_of::<Tr>(),
         2 => size_of::<Tz>(),
+        4 => size_of::<Tri>(),
         _ => size_of::<()>(),
     }) as i128
 }
@@ -484,6 +508,7 @@ fn run(case: &[i128]) -> Res {
                     0 => k_tuple::<u32>(case),
                     1 => k_tuple::<Tr>(case),
                     2 => k_tuple::<Tz>(case),
+                    4 => k_tuple::<Tri>(case),
                     _ => k_tuple::<()>(case),
                 }
             } else {
@@ -636,7 +661,7 @@ fn main() {
 
     // kind 0: every view of every length and element type, at every position of the enclosing buffer
     for &n in &NS {
-        for ety in 0..4i128 {
+        for ety in 0..5i128 {
             for o in 0..3i128 {
                 if n >= 255 && !thorough && o != 1 {
                     continue;
@@ -653,7 +678,10 @@ fn main() {
         if n == 0 {
             continue;
         }
-        for ety in 0..2i128 {
+        for ety in [0i128, 1, 4] {
+            if ety == 4 && n > 16 {
+                continue;
+            }
             let mut idx = vec![0, n / 2, n - 1];
             idx.dedup();
             for &a_ in &mut_views {
@@ -716,7 +744,7 @@ fn main() {
 
     // kind 3: by-value conversions
     for &n in &NS {
-        for ety in 0..4i128 {
+        for ety in 0..5i128 {
             for dir in 0..4i128 {
                 dist("by-value.array");
                 do_case(vec![3, ety, size_of_ety(ety), n as i128, dir, 1 + rng.below(100_000) as i128]);
